@@ -225,7 +225,8 @@ class Ctx:
         self.samples: list = []
         self.max_samples = 4
         self.excluded_known: Counter = Counter()
-        self.known = load_known_findings(pid)
+        # VERIF_IGNORE_KNOWN=1 (development aid): report listed findings as violations, e.g. to regenerate their replay files
+        self.known = {} if os.environ.get('VERIF_IGNORE_KNOWN') == '1' else load_known_findings(pid)
         self.session_seen: set[str] = set()  # violations already reported
         self.violations: list[dict] = []
         self.last_fail: dict | None = None
@@ -597,6 +598,8 @@ def run_single(pid: str, tier: str, seed: int, shard: int, nshards: int, partial
     mod = prop_module(pid)
     ctx = Ctx(pid, tier, seed, shard, nshards)
     try:
+        if shard == 0:
+            run_regressions(ctx, mod)
         mod.run(ctx)
     finally:
         ctx.cleanup()
@@ -604,6 +607,41 @@ def run_single(pid: str, tier: str, seed: int, shard: int, nshards: int, partial
         Path(partial_out).write_text(json.dumps(ctx.to_partial()))
         return 0
     return finish(ctx)
+
+
+def run_regressions(ctx: Ctx, mod):
+    """Seconds-long replay tier: every saved failing input of this property
+    (shrunk cases of defects that were repaired or recorded, and of seeded
+    changes) is re-run as a plain regression check, without Hypothesis."""
+    rdir = VERIF / 'regress' / ctx.pid
+    if not rdir.is_dir() or not hasattr(mod, 'replay'):
+        return
+    n = 0
+    for f in sorted(rdir.glob('*.json')):
+        try:
+            rec = json.loads(f.read_text())
+        except ValueError as e:
+            raise HarnessError(f'unreadable regression file {f}: {e}') from e
+        n += 1
+        ctx.new_round()
+        try:
+            mod.replay(ctx, rec['case'])
+        except Violation:
+            ctx.record_violation()
+        except AlreadyReported:
+            pass
+        except HarnessError:
+            raise
+        except Exception as e:  # noqa: BLE001
+            if type(e).__name__ == 'UnsatisfiedAssumption':
+                continue
+            try:
+                ctx.fail_exc('regression.unclassified', e, f.name)
+            except Violation:
+                ctx.record_violation()
+            except AlreadyReported:
+                pass
+    ctx.extra['regression_inputs_replayed'] = n
 
 
 def run_sharded(pid: str, tier: str, seed: int, nshards: int) -> int:
